@@ -58,25 +58,25 @@ fn t_frame_debug() {
 fn wrap_peek(c: &LruCache<u8, SV, BH>, k: u8) -> bool { c.peek(&k).is_some() }
 #[kani::proof_for_contract(wrap_peek)]
 #[kani::unwind(6)]
-fn t_framec_peek() { let c = prebuilt(2, 4); let k: u8 = kani::any(); kani::assume(k < 3); let _ = wrap_peek(&c, k); }
+fn t_framec_peek() { table_defaults(); let c = prebuilt(2, 4); let k: u8 = kani::any(); kani::assume(k < 3); let _ = wrap_peek(&c, k); }
 
 #[kani::ensures(|_r| true)]
 fn wrap_peek_entry(c: &LruCache<u8, SV, BH>, k: u8) -> bool { c.peek_entry(&k).is_some() }
 #[kani::proof_for_contract(wrap_peek_entry)]
 #[kani::unwind(6)]
-fn t_framec_peek_entry() { let c = prebuilt(2, 4); let k: u8 = kani::any(); kani::assume(k < 3); let _ = wrap_peek_entry(&c, k); }
+fn t_framec_peek_entry() { table_defaults(); let c = prebuilt(2, 4); let k: u8 = kani::any(); kani::assume(k < 3); let _ = wrap_peek_entry(&c, k); }
 
 #[kani::ensures(|_r| true)]
 fn wrap_contains(c: &LruCache<u8, SV, BH>, k: u8) -> bool { c.contains(&k) }
 #[kani::proof_for_contract(wrap_contains)]
 #[kani::unwind(6)]
-fn t_framec_contains() { let c = prebuilt(2, 4); let k: u8 = kani::any(); kani::assume(k < 3); let _ = wrap_contains(&c, k); }
+fn t_framec_contains() { table_defaults(); let c = prebuilt(2, 4); let k: u8 = kani::any(); kani::assume(k < 3); let _ = wrap_contains(&c, k); }
 
 #[kani::ensures(|_r| true)]
 fn wrap_peek_ends(c: &LruCache<u8, SV, BH>) -> bool { c.peek_lru().is_some() && c.peek_mru().is_some() }
 #[kani::proof_for_contract(wrap_peek_ends)]
 #[kani::unwind(6)]
-fn t_framec_peek_ends() { let c = prebuilt(2, 4); let _ = wrap_peek_ends(&c); }
+fn t_framec_peek_ends() { table_defaults(); let c = prebuilt(2, 4); let _ = wrap_peek_ends(&c); }
 
 #[kani::ensures(|_r| true)]
 fn wrap_iter(c: &LruCache<u8, SV, BH>) -> usize {
@@ -89,10 +89,10 @@ fn wrap_iter(c: &LruCache<u8, SV, BH>) -> usize {
 }
 #[kani::proof_for_contract(wrap_iter)]
 #[kani::unwind(6)]
-fn t_framec_iter() { let c = prebuilt(2, 4); let _ = wrap_iter(&c); }
+fn t_framec_iter() { table_defaults(); let c = prebuilt(2, 4); let _ = wrap_iter(&c); }
 
 #[kani::ensures(|_r| true)]
 fn wrap_scalars(c: &LruCache<u8, SV, BH>) -> usize { c.len() + c.current_size() + c.max_size() + c.capacity() + (c.is_empty() as usize) }
 #[kani::proof_for_contract(wrap_scalars)]
 #[kani::unwind(6)]
-fn t_framec_scalars() { let c = prebuilt(2, 4); let _ = wrap_scalars(&c); }
+fn t_framec_scalars() { table_defaults(); let c = prebuilt(2, 4); let _ = wrap_scalars(&c); }
